@@ -120,6 +120,7 @@ _SCHEMA = {
     "ZG": dict(ep=_INT, b=_INT), "AS": dict(ep=_INT, b=_INT, net=_INT),
     "OS": dict(ep=_INT, b=_INT, pv=_INT), "SC": dict(ep=_INT, n=_INT),
     "EV": dict(cb=_INT, ep=_INT), "LG": dict(cb=_INT, ep=_INT), "SV": dict(cb=_INT, name=_INT, pv=_INT),
+    "RZ": dict(kk=lambda x: x in ("TS", "ES", "BS", "BE", "EE", "TE"), ep=_INT, b=_INT, cb=_INT),
 }
 for _k in ("TS", "ES", "BS", "BE", "EE", "TE"):
     _SCHEMA[_k] = dict(ep=_INT, b=_INT, cb=_INT, stop=lambda x: isinstance(x, bool), pv=_INT,
@@ -134,6 +135,15 @@ def malformed(ev):
         if sch is None or set(e) != set(sch) | {"k"} or not all(f(e[n]) for n, f in sch.items()):
             return i
     return None
+
+
+def rebased(real, pv0):
+    """A later fit() on a model that has already taken pv0 optimizer steps, seen as a run of its own (the trace
+    specification starts every run at parameter version 0)."""
+    r = dict(real)
+    r["hist"] = [dict(e, pv=e["pv"] - pv0) if "pv" in e else e for e in real["hist"]]
+    r["pver"] = real["pver"] - pv0
+    return r
 
 
 def to_trace(cfg, real):
